@@ -11,6 +11,8 @@ import Morlock.Proofs.FltBits
 import Morlock.Proofs.FltOps
 import Morlock.Proofs.FltSqrt
 import Morlock.Proofs.FltSqrtMono
+import Morlock.Proofs.FltSqrtNearest
+import Morlock.Proofs.FltOverflow
 import Morlock.Proofs.FltNearest
 import Morlock.Proofs.FltInt
 /-!
